@@ -3,6 +3,7 @@ import LenaModel.Model.C03
 import LenaModel.Model.C03X
 import LenaModel.Model.C03Zip
 import LenaModel.Model.C03Spec
+import LenaModel.Model.C03G
 /-! Model driver for C03.  Requests (one JSON object per line):
 
   {"op":"run","brs":[B..],"flow":[ints],"bufsizes":[n|null..],"copy_buf":bool}
@@ -159,7 +160,8 @@ def ospecX? (j : Json) : Option OSpecX :=
     match hspec? j, optNat (getD j "boom_fill"), optNat (getD j "boom_gen") with
     | some h, some bf, some bg =>
       some (.plain { base := h, boomFill := bf, boomGen := bg,
-                     boomExc := (str? (getD j "boom_exc")).getD "ValueError" })
+                     boomExc := (str? (getD j "boom_exc")).getD "ValueError",
+                     boomFillExc := (str? (getD j "boom_fill_exc")).getD "ValueError" })
     | _, _, _ => none
 
 def bufArg? (j : Json) : Option BufArg :=
@@ -234,6 +236,104 @@ def handleRunX (j : Json) : Json :=
       Json.mkObj [("runs", Json.arr runsJ.toArray), ("obj_runs", objJ), ("spec_states", specJ),
         ("forget_out", forgetJ)]
   | _, _, _, _ => err "bad runx args"
+
+/-! ### op "inter": several generators of one Split object, consumed alternately (stateless branches)
+
+  {"op":"inter","brs":[S..],"flows":[[ints]..],"sched":[k..],"bufsize":n|null,"copy_buf":bool}
+      S = {"k":"src","n":k} | {"k":"fc","m":int|null} | {"k":"fr","m":int|null} | {"k":"sq","v":"map"|"even"|"dup"|"lam"}
+          (+ "pre"/"post")
+      -> {"outs":[[V..]..],"alone":[[V..]..]}
+         "outs": the generator machines of `Model/C03G.lean` (`microStep` on one shared `ObjStore`): `next()` is
+         called on generator k for every k of "sched", then the generators are drained one after another;
+         "alone": `Split.run` of every flow -/
+
+def ssq? : String → Option SSq
+  | "map" => some .map | "even" => some .even | "dup" => some .dup | "lam" => some .lam | _ => none
+
+def sspec? (j : Json) : Option SHSpec :=
+  let pre := (bool? (getD j "pre")).getD false
+  let post := (bool? (getD j "post")).getD false
+  let base : Option SSpec := match str? (getD j "k") with
+    | some "src" => (nat? (getD j "n")).map SSpec.src
+    | some "fc" => (optInt (getD j "m")).map SSpec.fc
+    | some "fr" => (optInt (getD j "m")).map SSpec.fr
+    | some "sq" => ((str? (getD j "v")).bind ssq?).map SSpec.sq
+    | _ => none
+  base.map (fun b => { base := b, pre := pre, post := post })
+
+/-- a generator of the machine together with the values of its current step that were not handed out yet -/
+structure GenY where
+  g : GenS V
+  pending : List V
+  out : List V
+
+/-- `next(gen)`: hand out a pending value, or make micro steps on the shared objects until one yields values or
+the generator is exhausted (`fuel` bounds the steps without a value) -/
+def nextY (bs : Option Nat) : Nat → ObjStore Unit V → GenY → ObjStore Unit V × GenY
+  | 0, st, y => (st, y)
+  | fuel + 1, st, y =>
+    match y.pending with
+    | v :: r => (st, { y with pending := r, out := y.out ++ [v] })
+    | [] =>
+      if y.g.fin then (st, y) else
+      let r := microStep bs st y.g
+      nextY bs fuel r.2.1 { y with g := r.2.2, pending := outputs r.1 }
+
+def schedY (bs : Option Nat) (fuel : Nat) : List Nat → ObjStore Unit V → List GenY → ObjStore Unit V × List GenY
+  | [], st, ys => (st, ys)
+  | k :: rest, st, ys =>
+    match ys[k]? with
+    | none => schedY bs fuel rest st ys
+    | some y =>
+      let r := nextY bs fuel st y
+      schedY bs fuel rest r.1 (ys.set k r.2)
+
+/-- drain generator `k`: `next()` until it is exhausted (at most `n` values) -/
+def drainY (bs : Option Nat) (fuel : Nat) (k : Nat) : Nat → ObjStore Unit V → List GenY → ObjStore Unit V × List GenY
+  | 0, st, ys => (st, ys)
+  | n + 1, st, ys =>
+    match ys[k]? with
+    | none => (st, ys)
+    | some y =>
+      if y.g.fin && y.pending.isEmpty then (st, ys) else
+      let r := nextY bs fuel st y
+      drainY bs fuel k n r.1 (ys.set k r.2)
+
+def handleInter (j : Json) : Json :=
+  match (arr? (getD j "brs")).bind (fun a => a.toList.mapM sspec?),
+      (arr? (getD j "flows")).bind (fun a => a.toList.mapM flow?),
+      (arr? (getD j "sched")).bind (fun a => a.toList.mapM nat?), optNat (getD j "bufsize"),
+      bool? (getD j "copy_buf") with
+  | some sp, some flows, some sched, some bs, some cb =>
+    let brs := mkStatelessBranches 0 sp
+    let s : Split Unit V := { branches := brs, bufsize := bs, copyBuf := cb }
+    let alone := flows.map s.run
+    match brs with
+    | [] => Json.mkObj [("outs", ofList (ofList vJson) alone), ("alone", ofList (ofList vJson) alone)]
+    | d :: _ =>
+      let st := storeOf d brs
+      let ids := brs.map (·.id)
+      let ys : List GenY := flows.map (fun f => { g := GenS.start ids f, pending := [], out := [] })
+      let maxlen := flows.foldl (fun m f => max m f.length) 0
+      let fuel := genFuel brs.length maxlen + 2
+      let r := schedY bs fuel sched st ys
+      -- then the rest, one generator after the other
+      let total := (maxlen + 2) * (2 * brs.length + 4) + 10
+      let r2 := (List.range flows.length).foldl (fun (acc : ObjStore Unit V × List GenY) k =>
+        drainY bs fuel k total acc.1 acc.2) r
+      -- the definitions the theorems of `Props/C03G.lean` are about, executed as they stand: one generator alone
+      -- (`genIter` with `genFuel` steps: `gen_alone`), and `runSched` on a step-level schedule: every entry of
+      -- "sched" lets that generator make three steps, then round robin until all are exhausted (`interleaved_runs`)
+      let gen := flows.map (fun f => outputs (genIter bs (genFuel brs.length f.length) st (GenS.start ids f)).1)
+      let nf := flows.length
+      let micro := sched.flatMap (fun k => [k, k, k]) ++
+        (List.range (nf * genFuel brs.length maxlen)).map (fun i => i % nf)
+      let rs := runSched bs micro st (flows.map (fun f => (GenS.start ids f, [])))
+      Json.mkObj [("outs", ofList (fun (y : GenY) => ofList vJson y.out) r2.2),
+        ("alone", ofList (ofList vJson) alone),
+        ("gen", ofList (ofList vJson) gen),
+        ("micro", ofList (fun (p : GenS V × List (Ev V)) => ofList vJson (outputs p.2)) rs.2)]
+  | _, _, _, _, _ => err "bad inter args"
 
 /-! ### op "zipctx": Zip on values with context, `fields`
 
@@ -313,6 +413,17 @@ def handle (j : Json) : Json :=
         Json.mkObj [("runs", ofList (runOne spec (mkOuterBranches 0 osp) kc cb flow) bss)]
     | _, _, _, _ => err "bad run args"
   | some "runx" => handleRunX j
+  | some "inter" => handleInter j
+  | some "exc" =>
+    -- the transcribed class hierarchy (`Model/C03Exc.lean`) and the `except LenaStopFill` clause (`catchStopFill`)
+    match (str? (getD j "name")).bind ExcClass.ofName with
+    | some c =>
+      Json.mkObj [("name", c.name), ("bases", ofList (fun (b : ExcClass) => Json.str b.name) c.bases),
+        ("stop", Json.bool c.isStopSignal), ("lena", Json.bool (c.isa .lenaException)),
+        ("exception", Json.bool (c.isa .exception)),
+        ("caught", Json.bool (match catchStopFill c with | .stop => true | _ => false)),
+        ("caught_by_name", Json.bool (match catchStopFillName c.name with | .stop => true | _ => false))]
+    | none => err "unknown exception class"
   | some "zipctx" => handleZipCtx j
   | some "methods" =>
     match brs? j, (arr? (getD j "blocks")).bind (fun a => a.toList.mapM flow?) with
